@@ -37,6 +37,7 @@ var importMap = map[string][2]string{
 	"syscall":               {"verif/sim/simsyscall", "syscall"},
 	"sync":                  {"verif/sim/simsync", "sync"},
 	"time":                  {"verif/sim/simtime", "time"},
+	"sync/atomic":           {"verif/sim/simatomic", "atomic"},
 }
 
 var forbidden = map[string]bool{
@@ -175,6 +176,14 @@ func (r *rewriter) rewriteFile(f *ast.File) {
 				r.needRT[f] = true
 				c.Replace(st)
 			}
+		case *ast.CallExpr:
+			if id, ok := n.Fun.(*ast.Ident); ok && id.Name == "close" && len(n.Args) == 1 {
+				if _, isBuiltin := r.info.Uses[id].(*types.Builtin); isBuiltin {
+					r.needRT[f] = true
+					r.addSite(n.Pos(), "close", exprString(r.fset, unwrapAll(n.Args[0])))
+					c.Replace(rtCall("Close", n.Args[0]))
+				}
+			}
 		case *ast.UnaryExpr:
 			if n.Op == token.ARROW {
 				if _, inComm := c.Parent().(*ast.CommClause); inComm {
@@ -201,12 +210,18 @@ func (r *rewriter) rewriteFile(f *ast.File) {
 				c.Replace(rtCall("Recv", n.X))
 			}
 		case *ast.SendStmt:
-			if _, inComm := c.Parent().(*ast.CommClause); !inComm {
-				r.errorf(n.Pos(), "channel send in library code is not simulated")
+			if cc, inComm := c.Parent().(*ast.CommClause); !inComm || cc.Comm != ast.Stmt(n) {
+				r.needRT[f] = true
+				r.addSite(n.Pos(), "send", exprString(r.fset, unwrapAll(n.Chan)))
+				c.Replace(&ast.ExprStmt{X: rtCall("Send", n.Chan, n.Value)})
 			}
 		case *ast.RangeStmt:
 			if r.isChan(n.X) {
-				r.errorf(n.Pos(), "range over a channel is not simulated")
+				if st := r.rewriteChanRange(n); st != nil {
+					r.needRT[f] = true
+					c.Replace(st)
+				}
+				return true
 			}
 			if r.isMap(n.X) {
 				r.needRT[f] = true
@@ -266,56 +281,134 @@ func (r *rewriter) rewriteGo(g *ast.GoStmt) ast.Stmt {
 	}}
 }
 
+// rewriteSelect turns a select statement into
+//
+//	switch simrt.Select(hasDefault, simrt.RecvCase(ch0), simrt.SendCase(ch1), ...) {
+//	case 0: v, ok := simrt.Recv2Now(ch0); body0
+//	case 1: simrt.SendNow(ch1, x); body1
+//	default: bodyDefault        // only if the select had a default clause
+//	}
+//
+// break/continue keep their meaning (break leaves the switch as it left the
+// select).  Channel expressions with side effects (time.After(d)) are
+// evaluated once, before the switch.
 func (r *rewriter) rewriteSelect(s *ast.SelectStmt, isLabeled bool) ast.Stmt {
-	var chans []ast.Expr
 	var hoist []ast.Stmt
+	var cases []ast.Expr
+	var clauses []ast.Stmt
+	hasDefault := false
+	line := r.fset.Position(s.Pos()).Line
+	chanExpr := func(e ast.Expr) ast.Expr {
+		if pure(unwrapAll(e)) {
+			return e
+		}
+		name := fmt.Sprintf("simch%d_%d", line, len(hoist))
+		hoist = append(hoist, &ast.AssignStmt{Lhs: []ast.Expr{ident(name)}, Tok: token.DEFINE, Rhs: []ast.Expr{e}})
+		return ident(name)
+	}
+	idx := 0
 	for _, cl := range s.Body.List {
 		cc := cl.(*ast.CommClause)
 		if cc.Comm == nil {
-			return nil // default clause: the select never blocks
+			hasDefault = true
+			clauses = append(clauses, &ast.CaseClause{List: nil, Body: cc.Body})
+			continue
 		}
-		var rx ast.Expr
+		var first ast.Stmt
 		switch st := cc.Comm.(type) {
-		case *ast.ExprStmt:
-			rx = st.X
-		case *ast.AssignStmt:
-			if len(st.Rhs) == 1 {
-				rx = st.Rhs[0]
-			}
 		case *ast.SendStmt:
-			r.errorf(st.Pos(), "select with a send case is not simulated")
-			return nil
-		}
-		for {
-			p, ok := rx.(*ast.ParenExpr)
-			if !ok {
-				break
+			ch := chanExpr(st.Chan)
+			cases = append(cases, rtCall("SendCase", ch))
+			first = &ast.ExprStmt{X: rtCall("SendNow", ch, st.Value)}
+		case *ast.ExprStmt:
+			u, ok := unparenExpr(st.X).(*ast.UnaryExpr)
+			if !ok || u.Op != token.ARROW {
+				r.errorf(cc.Pos(), "unsupported select case")
+				return nil
 			}
-			rx = p.X
-		}
-		u, ok := rx.(*ast.UnaryExpr)
-		if !ok || u.Op != token.ARROW {
+			ch := chanExpr(u.X)
+			cases = append(cases, rtCall("RecvCase", ch))
+			first = &ast.AssignStmt{Lhs: []ast.Expr{ident("_")}, Tok: token.ASSIGN, Rhs: []ast.Expr{rtCall("RecvNow", ch)}}
+		case *ast.AssignStmt:
+			if len(st.Rhs) != 1 {
+				r.errorf(cc.Pos(), "unsupported select case")
+				return nil
+			}
+			u, ok := unparenExpr(st.Rhs[0]).(*ast.UnaryExpr)
+			if !ok || u.Op != token.ARROW {
+				r.errorf(cc.Pos(), "unsupported select case")
+				return nil
+			}
+			ch := chanExpr(u.X)
+			cases = append(cases, rtCall("RecvCase", ch))
+			fn := "RecvNow"
+			if len(st.Lhs) == 2 {
+				fn = "Recv2Now"
+			}
+			first = &ast.AssignStmt{Lhs: st.Lhs, Tok: st.Tok, Rhs: []ast.Expr{rtCall(fn, ch)}}
+		default:
 			r.errorf(cc.Pos(), "unsupported select case")
 			return nil
 		}
-		if !pure(unwrapAll(u.X)) {
-			// e.g. case <-time.After(d): evaluate the channel once, before the select
-			name := fmt.Sprintf("simch%d_%d", r.fset.Position(s.Pos()).Line, len(hoist))
-			hoist = append(hoist, &ast.AssignStmt{Lhs: []ast.Expr{ident(name)}, Tok: token.DEFINE, Rhs: []ast.Expr{u.X}})
-			u.X = ident(name)
-		}
-		chans = append(chans, u.X)
+		body := append([]ast.Stmt{first}, cc.Body...)
+		clauses = append(clauses, &ast.CaseClause{List: []ast.Expr{intLit(idx)}, Body: body})
+		idx++
 	}
-	if len(chans) == 0 {
-		return nil
+	hd := ident("false")
+	if hasDefault {
+		hd = ident("true")
+	}
+	args := append([]ast.Expr{hd}, cases...)
+	sw := &ast.SwitchStmt{Tag: rtCall("Select", args...), Body: &ast.BlockStmt{List: clauses}}
+	r.addSite(s.Pos(), "select", fmt.Sprintf("%d cases, default=%v", len(cases), hasDefault))
+	if len(hoist) == 0 {
+		return sw
 	}
 	if isLabeled {
-		r.errorf(s.Pos(), "labeled select is not simulated")
+		r.errorf(s.Pos(), "labeled select with a channel expression that has side effects is not simulated")
 		return nil
 	}
-	r.addSite(s.Pos(), "select", fmt.Sprintf("%d receive cases", len(chans)))
-	list := append(hoist, &ast.ExprStmt{X: rtCall("BeforeRecv", chans...)}, s)
-	return &ast.BlockStmt{List: list}
+	return &ast.BlockStmt{List: append(hoist, sw)}
+}
+
+func unparenExpr(e ast.Expr) ast.Expr {
+	for {
+		p, ok := e.(*ast.ParenExpr)
+		if !ok {
+			return e
+		}
+		e = p.X
+	}
+}
+
+// rewriteChanRange turns `for v := range ch { body }` into a loop over simrt.Recv2.
+func (r *rewriter) rewriteChanRange(rs *ast.RangeStmt) ast.Stmt {
+	if !pure(unwrapAll(rs.X)) {
+		r.errorf(rs.Pos(), "range over a channel expression with side effects is not simulated")
+		return nil
+	}
+	line := r.fset.Position(rs.Pos()).Line
+	okName := fmt.Sprintf("simok%d", line)
+	vName := fmt.Sprintf("simv%d", line)
+	r.addSite(rs.Pos(), "chanrange", exprString(r.fset, unwrapAll(rs.X)))
+	pre := []ast.Stmt{
+		&ast.AssignStmt{Lhs: []ast.Expr{ident(vName), ident(okName)}, Tok: token.DEFINE, Rhs: []ast.Expr{rtCall("Recv2", rs.X)}},
+		&ast.IfStmt{Cond: &ast.UnaryExpr{Op: token.NOT, X: ident(okName)}, Body: &ast.BlockStmt{List: []ast.Stmt{&ast.BranchStmt{Tok: token.BREAK}}}},
+	}
+	if rs.Key != nil {
+		if id, ok := rs.Key.(*ast.Ident); !ok || id.Name != "_" {
+			tok := rs.Tok
+			pre = append(pre, &ast.AssignStmt{Lhs: []ast.Expr{rs.Key}, Tok: tok, Rhs: []ast.Expr{ident(vName)}})
+			if tok == token.DEFINE {
+				pre = append(pre, &ast.AssignStmt{Lhs: []ast.Expr{ident("_")}, Tok: token.ASSIGN, Rhs: []ast.Expr{rs.Key}})
+			}
+		} else {
+			pre = append(pre, &ast.AssignStmt{Lhs: []ast.Expr{ident("_")}, Tok: token.ASSIGN, Rhs: []ast.Expr{ident(vName)}})
+		}
+	} else {
+		pre = append(pre, &ast.AssignStmt{Lhs: []ast.Expr{ident("_")}, Tok: token.ASSIGN, Rhs: []ast.Expr{ident(vName)}})
+	}
+	return &ast.ForStmt{Body: &ast.BlockStmt{List: append(pre, rs.Body.List...)}}
 }
 
 // unwrapRace strips *simrt.R(&x, n) wrappers (for the purity test).
